@@ -183,6 +183,11 @@ func (r *Run) Finish(level string, cov map[string]any, assumptions []string, min
 	if cov == nil {
 		cov = map[string]any{}
 	}
+	if l, ok := cov["samples"].([]any); !ok || len(l) == 0 {
+		// every check collects samples of its cases; if a run did not (all sampled children lost), say so explicitly
+		cov["samples"] = []any{map[string]any{"note": "no case sample was collected in this run; see the event counters and classes for what was observed"}}
+		fmt.Fprintf(os.Stderr, "%s: warning: no samples collected\n", r.ID)
+	}
 	cov["inconclusive"] = r.inconclusive
 	if len(r.inconcWhy) > 0 {
 		cov["inconclusive_reasons"] = r.inconcWhy
